@@ -227,6 +227,12 @@ theorem split_compound_sequence (a₀ : Str) (l : List (Char × Str)) (ha : Vali
     ∀ x ∈ a₀ :: expectAtoms l, ValidAtom x :=
   ⟨splitCompound_seq a₀ l ha hl, expectAtoms_valid a₀ l ha hl⟩
 
+/-- blanks before and after the separators do not matter (`mV / Hz`): the same atoms come back -/
+theorem split_compound_blanks (a₀ : Str) (l : List (Str × Char × Str × Str)) (ha : ValidAtom a₀)
+    (hl : ValidPadded l) :
+    Compound.splitCompound (joinPadded a₀ l) = some (a₀ :: expectAtoms (stripPads l)) :=
+  splitCompound_padded a₀ l ha hl
+
 /-- joining atoms with `*` and splitting again gives exactly the atoms -/
 theorem split_compound_roundtrip (a₀ : Str) (as : List Str) (ha : ValidAtom a₀) (has : ∀ a ∈ as, ValidAtom a) :
     Compound.splitCompound (joinCompound a₀ (as.map fun a => ('*', a))) = some (a₀ :: as) :=
@@ -288,6 +294,7 @@ example : Compound.splitCompound "mmol/l^2*Sv^+3/kat^-2".toList =
     some ["mmol".toList, "l^-2".toList, "Sv^+3".toList, "kat^2".toList] := by decide +kernel
 example : joinCompound "mV".toList [('/', "s^2".toList), ('*', "mol".toList)] = "mV/s^2*mol".toList := by decide
 example : Compound.invertPower "s^+12".toList = "s^-12".toList := by decide +kernel
+example : joinPadded "mV".toList [("  ".toList, '/', " ".toList, "Hz".toList)] = "mV  / Hz".toList := by decide
 example : microSpellings = ["µ".toList, "μ".toList, "mu".toList] := by decide
 example : isAtomic "mV\n".toList = true ∧ isAtomic "mV\n\n".toList = false ∧ isAtomic "mV ".toList = false := by
   decide +kernel
